@@ -46,6 +46,11 @@ where
 
                         let line = &src[..i];
 
+                        // The carriage return of a CRLF newline may have arrived with the previous buffer.
+                        if line.is_empty() && definition.name().ends_with(&[CARRIAGE_RETURN]) {
+                            definition.name_mut().pop();
+                        }
+
                         if line.ends_with(&[CARRIAGE_RETURN]) {
                             // SAFETY: `line.len()` is > 0.
                             let end = line.len() - 1;
